@@ -10,20 +10,40 @@
      valid_edits_gen, valid_script_gen, eq_lists      -- Slice/EditSpec.v *)
 From Coq Require Import ZArith List Bool.
 Import ListNotations.
+From Mds Require Import Gen.EditIdx.
 From Mds Require Export Slice.EditLoop Slice.EditSpec.
 From Mds Require Import Slice.LcsModel.
+Local Open Scope Z_scope.
 
 Section EditModel.
   Variable T : Type.
   Variable eqb : T -> T -> bool.
 
-  (* editScriptFunc(eq, lhs, rhs).  LCSFunc's model returns None for "panic or out of fuel"
-     (LcsProofs.lcs_func_total: never); here that is reported as a panic. *)
-  Definition edit_script_run (lhs rhs : list T) : eres (list (edit T)) :=
-    match lcs_func T eqb lhs rhs with
-    | Some lcs => edit_script_of_lcs T eqb lcs lhs rhs
-    | None => EPanic
+  (* lcs := LCSFunc(lhs, rhs, eq).  Which parameter of editScriptFunc stands in which argument
+     position is read off the call (Gen: es_lcs_arg0/1 applied to the codes lhs=0, rhs=1, eq=2);
+     [pick_arg] turns a code back into the list.  (The third argument being eq is pinned by
+     EditProofs.skeleton_calls.)  A code that names neither list gives None. *)
+  Definition pick_arg (code : Z) (lhs rhs : list T) : option (list T) :=
+    if code =? 0 then Some lhs else if code =? 1 then Some rhs else None.
+
+  (* editScriptFunc(eq, lhs, rhs) on inputs whose backing arrays continue with lx / rx beyond
+     their lengths (EditLoop.v header).  LCSFunc's model returns None for "panic or out of fuel"
+     (LcsProofs.lcs_func_total: never); here that is reported as a panic.  LCSFunc contains no
+     slice expression on its arguments, so it does not see the spare capacity. *)
+  Definition edit_script_run_cap (lx rx lhs rhs : list T) : eres (list (edit T)) :=
+    match pick_arg (es_lcs_arg0 0 1 2) lhs rhs, pick_arg (es_lcs_arg1 0 1 2) lhs rhs with
+    | Some a, Some b =>
+      match lcs_func T eqb a b with
+      | Some lcs => edit_script_of_lcs T eqb lx rx lcs lhs rhs
+      | None => EPanic
+      end
+    | _, _ => EPanic
     end.
+
+  (* the inputs without spare capacity (cap = len).  EditTheorems.edit_script_run_cap_indep: for
+     every equivalence eqb the result is the same whatever the spare capacity holds. *)
+  Definition edit_script_run (lhs rhs : list T) : eres (list (edit T)) :=
+    edit_script_run_cap [] [] lhs rhs.
 
   (* The returned script as a plain list.  This projection is meaningful only together with
      EditProofs.edit_script_run_ok : edit_script_run eqb lhs rhs = EOk (edit_script_func eqb lhs rhs)
@@ -35,8 +55,10 @@ Section EditModel.
     end.
 
   (* EditScript(lhs, rhs) on a comparable type is editScriptFunc(equal, lhs, rhs): instantiate
-     [eqb] with a decision procedure for equality. *)
+     [eqb] with a decision procedure for equality (Gen: es_pub_arg0/1/2, es_equal;
+     EditProofs.skeleton_calls, es_equal_decides). *)
 End EditModel.
 
+Arguments edit_script_run_cap {T} eqb lx rx lhs rhs.
 Arguments edit_script_run {T} eqb lhs rhs.
 Arguments edit_script_func {T} eqb lhs rhs.
